@@ -28,7 +28,7 @@ def bounds(tier):
 
 
 def expected_clauses(tier):
-    return ['grid', 'params', 'setter']
+    return ['grid', 'grid_axis', 'params', 'setter']
 
 
 def shards(tier):
@@ -122,6 +122,13 @@ def eval_point(pt, R):
             a, b = sub, P1
         R.check(okidx and close(a, b, rtol, 0.0), 'grid', dict(feats, c=c), ptc, sub, P1,
                 'PSD values at frequencies common to the NFFT1 and c*NFFT1 grids differ', err=relerr(a, b) if okidx else None)
+        try:
+            f1 = np.asarray(o1.frequencies(), dtype=float)
+            f2 = np.asarray(o2.frequencies(), dtype=float)
+            okf = len(f1) == len(P1) and len(f2) == len(P2) and okidx and close(f2[idx], f1, 1e-12, 1e-15) and o1.NFFT == nf and o2.NFFT == c * nf
+        except Exception:
+            okf = False
+        R.check(okf, 'grid_axis', dict(feats, c=c), ptc, None, None, 'the reported frequencies of common entries differ between the NFFT1 and c*NFFT1 objects (or NFFT is not the requested value)')
         for a_ in PARAMS:
             v1, v2 = _get(o1, a_), _get(o2, a_)
             if v1 is None and v2 is None:
